@@ -249,12 +249,16 @@ func TestGraphs(t *testing.T) {
 type Scanner struct {
 	reject map[string]bool
 	yields map[string]int
+	gates  map[string]chan struct{} // owned schedule: the call for a component returns only after its gate opened
 }
 
 func (s *Scanner) Naming() string { return "user-scanner" }
 func (s *Scanner) PostProcessDefinitionRegistry(registry container.DefinitionRegistry, component any, name string) error {
 	for i := 0; i < s.yields[name]; i++ {
 		runtime.Gosched()
+	}
+	if g, ok := s.gates[name]; ok {
+		<-g
 	}
 	if s.reject[name] {
 		return fmt.Errorf("scanner rejects %s", name)
@@ -287,6 +291,24 @@ func TestScanners(t *testing.T) {
 			for _, n := range names {
 				sc.yields[n] = rapid.IntRange(0, 40).Draw(t, "yield")
 			}
+			// every second run the harness owns the finishing order of the scanner's calls: gates are opened one
+			// by one in a drawn order (independently of whether the call was entered, so a sequential scan is fine)
+			var order []string
+			if i%2 == 1 {
+				sc.gates = map[string]chan struct{}{}
+				for _, n := range names {
+					sc.gates[n] = make(chan struct{})
+				}
+				order = rapid.Permutation(append([]string{}, names...)).Draw(t, "gateorder")
+				go func() {
+					for _, n := range order {
+						for y := 0; y < 10; y++ {
+							runtime.Gosched()
+						}
+						close(sc.gates[n])
+					}
+				}()
+			}
 			in.Extra = append(in.Extra, sc)
 			in.Run()
 			if in.Out.Panic != nil {
@@ -298,7 +320,7 @@ func TestScanners(t *testing.T) {
 				firstOut = in.Out.String()
 			}
 			if ok == (len(reject) > 0) {
-				t.Fatalf("C10: the definition scanner rejects %v; run %d %s (schedule of the parallel scanning phase: yields %v) - the outcome must not depend on which scanning goroutine finishes last\nscenario: %s", keysOf(reject), i, map[bool]string{true: "started although a component was rejected", false: "failed although nothing was rejected: " + in.Out.String()}[ok], sc.yields, s.Shape())
+				t.Fatalf("C10: the definition scanner rejects %v; run %d %s (schedule of the parallel scanning phase: yields %v, gate order %v) - the outcome must not depend on which scanning goroutine finishes last\nscenario: %s", keysOf(reject), i, map[bool]string{true: "started although a component was rejected", false: "failed although nothing was rejected: " + in.Out.String()}[ok], sc.yields, order, s.Shape())
 			}
 		}
 		desc := fmt.Sprintf("scan %s reject=%v", s.Shape(), keysOf(reject))
